@@ -215,6 +215,112 @@ pub fn main(args: &[String]) {
                 }
             }
         }
+        "literal" => {
+            // C08: the content of every literal replaced by adversarial bytes; everything else must stay the same.
+            // line: `<hex input>\t<result>\t<verdict>`
+            let contents: Vec<Vec<u8>> = {
+                let mut v: Vec<Vec<u8>> = vec![
+                    b"".to_vec(), b")\r\nA0001 OK done\r\n".to_vec(), b"{5}\r\n".to_vec(), b"{99999}\r\n".to_vec(), b"\"".to_vec(), b"\\".to_vec(),
+                    b"((((".to_vec(), b"))))".to_vec(), b"\r\n".to_vec(), b"\r".to_vec(), b"\n".to_vec(), b"* 1 EXISTS\r\n".to_vec(), b"NIL".to_vec(),
+                    b"\" \"x\" (".to_vec(), b"]".to_vec(), b"[".to_vec(), b"+ go\r\n".to_vec(), b" ".to_vec(), b"{0}\r\n{0}\r\n".to_vec(),
+                    b"A0001 BAD {3}\r\nabc\r\n".to_vec(),
+                ];
+                v.push((1u8..=127).collect());
+                v.push(std::iter::repeat(b")\r\n* BYE\r\n".iter().copied()).take(6000).flatten().collect());
+                v
+            };
+            for _ in 0..n {
+                let v = genresp::gen_response(&mut rng);
+                let mut e = Enc::new(&mut rng, true);
+                e.force_literal = true;
+                genresp::enc_response(&mut e, &v);
+                let spans = e.literal_spans.clone();
+                let enc = e.out;
+                let (_, follow) = gen_pair(&mut rng, true);
+                for (k, (off, len)) in spans.iter().enumerate().take(4) {
+                    // header = "{" digits "}" CRLF right before the content
+                    let hdr_end = *off;
+                    let mut hdr_start = hdr_end - 3; // before "}\r\n"
+                    while hdr_start > 0 && enc[hdr_start - 1].is_ascii_digit() {
+                        hdr_start -= 1;
+                    }
+                    if hdr_start == 0 || enc[hdr_start - 1] != b'{' {
+                        continue;
+                    }
+                    let build = |content: &[u8]| -> Vec<u8> {
+                        let mut b = enc[..hdr_start].to_vec();
+                        b.extend_from_slice(content.len().to_string().as_bytes());
+                        b.extend_from_slice(b"}\r\n");
+                        b.extend_from_slice(content);
+                        b.extend_from_slice(&enc[off + len..]);
+                        b
+                    };
+                    let marker = format!("\u{1}<MARK-{}-{}>\u{2}", k, rng.below(1000000)).into_bytes();
+                    let a = build(&marker);
+                    let ra = run_parser(&a);
+                    let mh = hex(&marker);
+                    let want_prefix = format!("OK {} ", a.len());
+                    if !ra.starts_with(&want_prefix) || ra.matches(&mh).count() != 1 {
+                        // this position constrains its content (entry names, INBOX folding, ...) or shows it twice: not a free literal
+                        continue;
+                    }
+                    let base = &ra[want_prefix.len()..];
+                    // is this a byte-string field (any CHAR8 content) or a text field (the library's type is str: only
+                    // UTF-8 content can be its value)?  Decided by the implementation's own answer to a binary marker.
+                    let marker2 = format!("\u{1}<BIN-{}>", rng.below(1000000)).into_bytes().into_iter().chain([0xff, 0xfe]).collect::<Vec<u8>>();
+                    let a2 = build(&marker2);
+                    let binary_ok = run_parser(&a2) == format!("OK {} {}", a2.len(), base.replace(&mh, &hex(&marker2)));
+                    let rf = run_parser(&follow);
+                    let x = rng.pick(&contents).clone();
+                    let x = if rng.chance(1, 6) { (0..1 + rng.below(40)).map(|_| 1 + rng.below(255) as u8).collect() } else { x };
+                    let b = build(&x);
+                    let mut bf = b.clone();
+                    bf.extend_from_slice(&follow);
+                    let rb = run_parser(&bf);
+                    // the ID response is a map: its dump lists the pairs sorted by key, so sort again after the substitution
+                    let resort = |s: &str| -> String {
+                        match (s.find("(Response::Id (Some ["), s.rfind("]))")) {
+                            (Some(a), Some(z)) if s[a..].starts_with("(Response::Id (Some [") => {
+                                let inner = &s[a + 21..z];
+                                let mut items: Vec<&str> = inner.split(") (T ").collect();
+                                let n = items.len();
+                                let mut owned: Vec<String> = items
+                                    .drain(..)
+                                    .enumerate()
+                                    .map(|(i, t)| {
+                                        let t = if i == 0 { t.trim_start_matches("(T ") } else { t };
+                                        let t = if i + 1 == n { t.trim_end_matches(')') } else { t };
+                                        t.to_string()
+                                    })
+                                    .collect();
+                                owned.sort();
+                                let keys: Vec<&str> = owned.iter().map(|t| t.split(' ').next().unwrap_or("")).collect();
+                                if keys.windows(2).any(|w| w[0] == w[1]) {
+                                    return "SKIP duplicate map key".to_string();
+                                }
+                                format!("{}(Response::Id (Some [{}]))", &s[..a], owned.iter().map(|t| format!("(T {})", t)).collect::<Vec<_>>().join(" "))
+                            }
+                            _ => s.to_string(),
+                        }
+                    };
+                    let expect = resort(&format!("OK {} {}", b.len(), base.replace(&mh, &hex(&x))));
+                    let rb = resort(&rb);
+                    let utf8 = std::str::from_utf8(&x).is_ok();
+                    let verdict = if expect.starts_with("SKIP") {
+                        "OK".to_string()
+                    } else if rb == expect {
+                        // and the response that follows is untouched
+                        let rest = run_parser(&bf[b.len()..]);
+                        if rest == rf { "OK".to_string() } else { "BAD the response after the literal parses differently".to_string() }
+                    } else if !utf8 && !binary_ok {
+                        "OK".to_string() // a text field cannot hold bytes that are not UTF-8: outside the quantifier
+                    } else {
+                        format!("BAD expected {}", &expect[..expect.len().min(300)])
+                    };
+                    println!("{}\t{}\t{}", hex(&bf), &rb[..rb.len().min(400)], verdict);
+                }
+            }
+        }
         "stability" => {
             // pairs (B, B ++ X): B a prefix / mutation / splice / whole response, X empty / a response / random bytes.
             // Two lines per pair; the second carries `X <len B>`.
